@@ -7,8 +7,12 @@ ROWS = [(i, None if i % 3 == 0 else i * 10, None if i % 4 == 0 else "v%d" % i) f
 VALS = ", ".join("(%d, %s, %s)" % (a, "null" if b is None else b, "null" if c is None else "'%s'" % c) for a, b, c in ROWS)
 WANT_T = sorted(json.dumps([a, b, c]) for a, b, c in ROWS)
 WANT_R = sorted(json.dumps([x]) for x in (2, 4, 515, 7, 9))
-TABLE_OF = {"0": "t", "1": "u", "2": "r"}
-READ = {"t": "select a, b, c from t", "r": "select a from r"}
+# d: few distinct values, two INSERTs, one compactor pass: its only row-set is written by the *compactor*, which picks
+# dictionary / run-length encodings for such columns
+DROWS = [(7, "k0") for i in range(60)]
+WANT_D = sorted(json.dumps([a, b]) for a, b in DROWS)
+TABLE_OF = {"0": "t", "1": "u", "2": "r", "3": "d"}
+READ = {"t": "select a, b, c from t", "r": "select a from r", "d": "select a, s from d"}
 
 
 def _varint(b, i):
@@ -111,6 +115,10 @@ def check_c18(args):
              {"sql": "create table r(a int not null)"},
              {"sql": f"insert into t values {VALS}"}, {"sql": "insert into u values (1), (2), (3)"},
              {"sql": "insert into r values (2), (4), (515), (7), (9)"},
+             {"sql": "create table d(a int not null, s varchar)"},
+             {"sql": "insert into d values " + ", ".join("(%d, '%s')" % r for r in DROWS[:30])},
+             {"sql": "insert into d values " + ", ".join("(%d, '%s')" % r for r in DROWS[30:])},
+             {"op": "compact"},
              {"op": "reopen"}]          # start with a cold cache
     NS = len(setup)
     layout = column_layout(setup)
@@ -155,6 +163,10 @@ def check_c18(args):
             for t2 in range(0, 20):
                 if t2 != ty:
                     sweep_type.append((tab, {"op": "corrupt", "path": col, "pos": end - 13, "xor": ty ^ t2}))
+            if tab == "d":
+                # payload of the compactor-written blocks (the model-driven part damages table t only)
+                for pos in sorted({off, off + 1, off + (ln - 16) // 2, end - 17}):
+                    sweep_type.append((tab, {"op": "corrupt", "path": col, "pos": pos, "xor": rnd.choice([1, 4, 128])}))
             for pos in range(end - 16, end - 13):
                 sweep_rest.append((tab, {"op": "corrupt", "path": col, "pos": pos, "xor": 1}))
             for pos in range(end - 12, end):
@@ -174,7 +186,7 @@ def check_c18(args):
             continue
         res = out["res"][NS:]
         info = {"sequence": [s for s in run["steps"][NS:]], "spec_sequence": plan}
-        want_rows = WANT_T if run["table"] == "t" else WANT_R
+        want_rows = {"t": WANT_T, "r": WANT_R, "d": WANT_D}[run["table"]]
         dead = False
         for e, st, r in zip(plan, run["steps"][NS:], res):
             if e["a"] == "reopen":
